@@ -250,7 +250,8 @@ def oracle(case):
     from vf.framework import real_repo
     sa = real_repo()
     from score_analysis import roc
-    pos, neg = np.array(case["pos"], dtype=float), np.array(case["neg"], dtype=float)
+    dt = np.dtype(case.get("dtype", "float64"))
+    pos, neg = np.array(case["pos"], dtype=dt), np.array(case["neg"], dtype=dt)
     sc, ec = case["sc"], case["ec"]
     s = sa.Scores(pos, neg, nb_easy_pos=case["ep"], nb_easy_neg=case["en"], score_class=sc, equal_class=ec)
     info = f"[pos={case['pos']} neg={case['neg']} easy=({case['ep']},{case['en']}) {sc}/{ec} x_axis={case['x_axis']} supplied={case['supply']}]"
@@ -317,7 +318,15 @@ def bounded(chk):
                 for xa in XAXES:
                     for sup in (supplies if (len(pos) + len(neg) <= 3 or xa in ("fpr", "tnr")) else supplies[:2]):
                         items.append({"pos": pos, "neg": neg, "ep": ep, "en": en, "sc": sc, "ec": ec, "x_axis": xa, "supply": sup})
-    chk.bounded["bound"] = f"all order types with both classes non-empty, pos+neg <= {maxn}; easy (0,0),(2,1); 4 configurations; 8 x_axis names; supplied-argument combinations {supplies}"
+    # supplied / derived thresholds that are all exactly 0, and scores of other dtypes (the thresholds stay float64)
+    for sc, ec in B.CONFIGS:
+        for xa in ("fpr", "fnr"):
+            for sup in ({"thresholds": [0.0]}, {"thresholds": [0.0, 0.0]}, {"fnr": [0.5]}, {"fpr": [0.5]}):
+                items.append({"pos": [-1.0, 1.0], "neg": [-1.0, 1.0], "ep": 0, "en": 0, "sc": sc, "ec": ec, "x_axis": xa, "supply": sup})
+            for dtn in ("int64", "float32"):
+                for sup in ({"thresholds": [0.5, 2.5]}, {"fnr": [0.0, 0.3, 1.0]}, {"fpr": [0.0, 0.6, 1.0]}, {"nb_points": 5}):
+                    items.append({"pos": [2, 3, 5], "neg": [1, 3, 4], "ep": 0, "en": 0, "sc": sc, "ec": ec, "x_axis": xa, "supply": sup, "dtype": dtn})
+    chk.bounded["bound"] = f"all-zero supplied / derived thresholds; int64 and float32 score arrays; all order types with both classes non-empty, pos+neg <= {maxn}; easy (0,0),(2,1); 4 configurations; 8 x_axis names; supplied-argument combinations {supplies}"
     chk.bounded["rule"] = "enumerated; each (dataset, configuration, x_axis, supply) is one case"
     chk.bounded["exhaustive"] = True
     run_bounded(chk, items, eval_items)
